@@ -62,8 +62,10 @@ def repr_value(v, depth=0):
         return "..."
     if type(v).__name__ == "UnionProxy":
         v = object.__getattribute__(v, "__target__")
+    if type(v).__name__ == "SStr" and v.raw.concrete() is not None:
+        return ("str", v.raw.concrete().decode("utf-16-le" if v.endian == "le" else "utf-16-be", "surrogatepass"))
     if type(v).__name__ == "SBytes" and v.concrete() is not None:
-        return ("BaseType", v.concrete())  # engine value with concrete content (input went through the BytesIO model)
+        return ("bytes", v.concrete())  # engine value with concrete content (input went through the BytesIO model)
     if isinstance(v, Structure):
         return tuple((n, repr_value(getattr(v, n), depth + 1)) for n in type(v).fields)
     if isinstance(v, enum.Enum):
@@ -77,5 +79,5 @@ def repr_value(v, depth=0):
 
         return ("f", struct.pack("<d", v).hex())
     if isinstance(v, (bytes, str, int)):
-        return (type(v).__mro__[-2].__name__, v if not isinstance(v, int) else int(v))
+        return ("bytes" if isinstance(v, bytes) else "str" if isinstance(v, str) else "int", v if not isinstance(v, int) else int(v))
     return repr(v)
